@@ -115,6 +115,7 @@ type stateFlow struct {
 	// per-call-context parameter container sets
 	paramSets map[*ssa.Parameter]sset
 	mayStoreMemo map[*ssa.Function]sset
+	idField      *string
 }
 
 func newStateFlow(p *Program, storeType string) *stateFlow {
@@ -785,6 +786,15 @@ func (sf *stateFlow) transfer(b *ssa.BasicBlock, f sfFact, record bool, root, ch
 								}
 							}
 						}
+						if !has {
+							// the key is the identity field of a record whose state is known: the table is keyed by
+							// that field on every insert, so this deletes that record
+							if ptr, fld, ok := sf.envFieldLoad(k); ok && fld == sf.identityField() && fld != "" {
+								if s, ok := f[ptr]; ok {
+									from, has = s, true
+								}
+							}
+						}
 						sf.event(record, sfEvent{Root: root, Fn: fn, Kind: "delete", From: from, Instr: x, Chain: chain})
 						f[k] = 0
 					} else if sf.isLeaseIndex(m) {
@@ -908,7 +918,7 @@ func (sf *stateFlow) Run() {
 		if !token.IsExported(fn.Name()) {
 			continue
 		}
-		sf.analyze(fn, sfFact{}, fn.Name(), fn.Name(), 0)
+		sf.analyze(sf.p.View(fn), sfFact{}, fn.Name(), fn.Name(), 0)
 	}
 	// de-duplicate events (same root, instruction, from)
 	seen := map[string]bool{}
@@ -955,4 +965,60 @@ func (sf *stateFlow) mayStore(fn *ssa.Function) sset {
 	}
 	sf.mayStoreMemo[fn] = w
 	return w
+}
+
+// envFieldLoad: v is a load of field F through an envelope pointer.
+func (sf *stateFlow) envFieldLoad(v ssa.Value) (ptr ssa.Value, field string, ok bool) {
+	u, isLoad := v.(*ssa.UnOp)
+	if !isLoad || u.Op != token.MUL {
+		return nil, "", false
+	}
+	return sf.envFieldAddr(u.X)
+}
+
+// identityField: the envelope field under which every insert into the item table files the record ("" if the
+// inserts do not agree or a key is not such a field).
+func (sf *stateFlow) identityField() string {
+	if sf.idField != nil {
+		return *sf.idField
+	}
+	name := ""
+	ok := true
+	n := 0
+	for _, fn := range sf.p.FuncsInPkg("queue") {
+		for _, b := range fn.Blocks {
+			for _, ins := range b.Instrs {
+				mu, isMU := ins.(*ssa.MapUpdate)
+				if !isMU || !sf.isItemTable(mu.Map) {
+					continue
+				}
+				n++
+				u, isLoad := mu.Key.(*ssa.UnOp)
+				if !isLoad || u.Op != token.MUL {
+					ok = false
+					continue
+				}
+				fa, isFA := u.X.(*ssa.FieldAddr)
+				if !isFA {
+					ok = false
+					continue
+				}
+				tn, f, _ := fieldAddrName(fa)
+				if tn != sf.envT.Obj().Name() {
+					ok = false
+					continue
+				}
+				if name == "" {
+					name = f
+				} else if name != f {
+					ok = false
+				}
+			}
+		}
+	}
+	if !ok || n == 0 {
+		name = ""
+	}
+	sf.idField = &name
+	return name
 }
